@@ -213,6 +213,15 @@ Definition dec_res (c : ks) (r : res) : res :=
 Definition client_step (c : ks) (o : op) (st : store) : store * res :=
   let '(st', r) := step (enc_op c o) st in (st', dec_res c r).
 
+(* the client's send loop: the n-th transmission of one request. [reencode = false] is the client as it is: every
+   transmission encodes the caller's (logical) request afresh. [reencode = true] is a client that hands the codec what
+   the previous transmission left behind (the caller's request rewritten in place). *)
+Fixpoint nth_wire (reencode : bool) (c : ks) (o : op) (n : nat) : op :=
+  match n with
+  | O => enc_op c o
+  | S m => if reencode then enc_op c (nth_wire reencode c o m) else enc_op c o
+  end.
+
 (* what a keyspace can see of a shared physical store *)
 Definition strip_kv (c : ks) (kv : list N * list N) := (skipn (length (prefix c)) (fst kv), snd kv).
 Definition view (c : ks) (st : store) : store :=
